@@ -913,14 +913,37 @@ func (in *Interp) returnStmt(st *state, x *ast.ReturnStmt, fr *frame) {
 			return
 		}
 	}
-	var vals []Val
 	for _, r := range x.Results {
 		in.exprEvents(st, r)
 	}
-	for _, r := range x.Results {
-		vals = append(vals, in.eval(st, r))
+	done := func(s *state) {
+		var vals []Val
+		for _, r := range x.Results {
+			vals = append(vals, in.eval(s, r))
+		}
+		fr.ret(s, x, x.Results, vals)
 	}
-	fr.ret(st, x, x.Results, vals)
+	// `return v, err` with an untested error variable that a call defined is the single-exit spelling of
+	// `if err != nil { return v, err }; return v, nil`: fork on it the same way
+	if n := len(x.Results); n >= 1 {
+		if id, ok := ast.Unparen(x.Results[n-1]).(*ast.Ident); ok && id.Name != "nil" {
+			o, ko := in.objOf(id), in.key(id)
+			if o != nil && ko != nil && isErrType(o.Type()) && !in.eval(st, id).Known() {
+				if d, ok := st.env.defs[o]; ok {
+					cond := &ast.BinaryExpr{X: id, OpPos: id.End(), Op: token.NEQ, Y: &ast.Ident{NamePos: id.End(), Name: "nil"}}
+					sE, sN := st.fork(), st.fork()
+					sE.env.vals[ko] = Val{K: VNonNil}
+					sE.emit(&Event{Kind: EvOutcome, Pos: id.Pos(), Node: cond, Cond: cond, Outcome: true, Var: o, DefCall: d, Nilness: 1})
+					sN.env.vals[ko] = Val{K: VNil}
+					sN.emit(&Event{Kind: EvOutcome, Pos: id.Pos(), Node: cond, Cond: cond, Outcome: false, Var: o, DefCall: d, Nilness: -1})
+					done(sE)
+					done(sN)
+					return
+				}
+			}
+		}
+	}
+	done(st)
 }
 
 // collectAssigned lists the objects assigned anywhere inside n (excluding nested function literals).
